@@ -150,7 +150,7 @@ func runC29(c *Ctx) {
 	}
 	hsTimeout := time.Duration(ch.Range(3, 12, "hs-timeout")) * time.Second
 
-	w := c.NewWorld(simrt.Config{LockYield: ch.Bool(60, "lockyield"), AtomicYield: ch.Bool(30, "atomyield"), PreemptPct: 5 + 15*ch.Pick(4, "preempt")})
+	w := c.NewWorld(simrt.Config{LockYield: ch.Bool(60, "lockyield"), UnlockYield: ch.Bool(30, "unlockyield"), AtomicYield: ch.Bool(30, "atomyield"), PreemptPct: 5 + 15*ch.Pick(4, "preempt")})
 	ResetStamp()
 	nt := simnet.NewNet()
 	frag := ch.Bool(40, "frag")
@@ -403,7 +403,9 @@ func runC29(c *Ctx) {
 				}
 				concurrent := false
 				for _, oc := range allCalls {
-					if oc != rc && oc.err == nil && oc.conn != nil && oc.ret > rc.invoke && oc.ret < rc.ret {
+					// a successful call that overlaps this one: it stores its ID some time between its
+					// invocation and its return (not necessarily before this call returns)
+					if oc != rc && oc.err == nil && oc.conn != nil && oc.ret > rc.invoke && oc.invoke < rc.ret {
 						cands[nameOfID(oc.connID, ids)] = true
 						concurrent = true
 					}
